@@ -60,3 +60,16 @@ Theorem C01_stump_add_refines_term :
     st_n st' = num_leaves (s ++ map Some adds).
 Proof. exact stump_add_refines_term. Qed.
 Print Assumptions C01_stump_add_refines_term.
+
+From Utreexo Require Import Proofs.CalcSound Proofs.StumpUpdate.
+(** "All implementations agree on the roots, for every history" - the roots-only verifier (mirror of
+    [Stump.Update], as repaired) against the reference, for every history of valid blocks *)
+Theorem C01_stump_history :
+  forall (H : Type) (HO : ops H), ops_ok HO ->
+  (forall a b, NZ HO (op_hash2 HO a b)) ->
+  forall filler (bs : list (list H * list H)),
+  N.of_nat (total_adds H bs) <= 2 ^ 63 -> valid_hist H HO [] bs ->
+  run_stump H HO filler (mkStump [] 0) [] bs
+  = Some (stump_of H HO (apply_hist H HO [] bs), apply_hist H HO [] bs).
+Proof. exact stump_history_refines_empty. Qed.
+Print Assumptions C01_stump_history.
